@@ -115,7 +115,7 @@ func genSafePrim(r *Rng, t zed.Type) zcode.Bytes {
 type flatOpts struct {
 	pad       bool // last column is a long string
 	minCols   int
-	maxCols   int // 0 = no limit
+	maxCols   int  // 0 = no limit
 	multi     bool // several record types with forced changes
 	sameNames bool // all types share the field names (csv accepts that)
 	safe      bool // only unproblematic names and values
